@@ -13,7 +13,10 @@ SHARDS = 8
 RULE = ("a file scenario is one VCF (1-3 chromosomes, optional second decoy sample) written from an abstract per-sample view and run "
         "through run_stats 2-4 times (plain, --only-snvs, --chromosome on the plain and on the bgzip+tabix file); selection files have 3-4 "
         "chromosomes and are run with every non-empty subset as --chromosome (comma list and repeated option, plain and indexed file, "
-        "file order and reversed); the per-chromosome "
+        "file order and reversed); non-contiguous files are un-indexed VCFs with 2-4 chromosomes in 3-7 runs of records in which "
+        "at least one chromosome comes back after records of another one (chrA.., chrB.., chrA..; runs of one name in disjoint "
+        "position ranges, in file order or not, with different set ids; PS/HP, ploidy 2-4, optional decoy sample), run plain and "
+        "with --only-snvs, and judged per chromosome NAME: the sum of its rows = the count over all its records; the per-chromosome "
         "call patterns are every sequence of call kinds {0/0, 1/1, 0/1, ./., 0/., partially-missing+phase-tag, non-SNV 0/1, non-SNV 1/1, "
         "het in set 1..3 (SNV or non-SNV)} that TLC enumerates in Gen_C12 up to the length bounds (all kinds for short patterns, the "
         "phase-structure kinds for long ones, interleaved and nested sets included), PS and HP encodings alternating, arbitrary set "
@@ -26,6 +29,12 @@ ASSUMPTIONS = [
     "allele is neither heterozygous nor member of a phase set; a phase set is identified by (chromosome, id); blocks = sets with >= 2 variants",
     "domain: biallelic records with distinct increasing positions per chromosome, one ploidy per file, one encoding (PS or HP) per file, "
     "every phase-tagged call carries an integer id (the class `nops` with PS='.' is only required not to crash and to keep the identities)",
+    "a chromosome is all records with its name: where the tool prints several rows for one name (one per contiguous run of records "
+    "in an un-indexed file) the columns of these rows are summed before they are compared with the count over the file, and the "
+    "number of rows of a name is at most the number of its runs; in the generated non-contiguous files the runs of one name use "
+    "different phase set ids (whether equal ids in two runs are one phase set is not decided here) and disjoint position ranges; "
+    "such files are not run with --chromosome (un-indexed, the tool stops reading after the first run of the last requested name: "
+    "reported as a finding, not generated) and cannot be tabix-indexed",
     "bp_per_block_sum is judged by the bound (<= span covered by the blocks) and, when no two blocks overlap, by equality with the "
     "sum of the block extents (the pieces are then the blocks); median/avg/N50/min/max columns are not judged",
     "split_blocks of a real PhasingStats are judged as pieces: pairwise disjoint, each made of >= 2 variants of one block, span = "
@@ -185,6 +194,54 @@ def random_chrom(rng, name, ploidy, nsets, n, ids):
     return {"name": name, "sites": sites}
 
 
+def _run_order(rng, names, nruns):
+    """file order of the runs: every name at least once, neighbours differ, at least one name comes back after another
+    chromosome's records (at most 4 runs per name)"""
+    seq = list(names)
+    rng.shuffle(seq)
+    tries = 0
+    while len(seq) < max(nruns, len(names) + 1) and tries < 1000:
+        tries += 1
+        nm = rng.choice(names)
+        at = rng.randrange(len(seq) + 1)
+        if seq.count(nm) >= 4 or (at > 0 and seq[at - 1] == nm) or (at < len(seq) and seq[at] == nm):
+            continue
+        seq.insert(at, nm)
+    return seq
+
+
+RUN_SLOT = 600        # runs of one chromosome occupy disjoint position ranges [slot * RUN_SLOT, (slot + 1) * RUN_SLOT)
+
+
+def noncontiguous_chroms(rng, names, nruns, ploidy, pats):
+    """runs of records for an un-indexed file in which a chromosome's records are not one contiguous run.  The runs of one
+    name carry different phase set ids and lie in disjoint position ranges (in file order or not)."""
+    seq = _run_order(rng, names, nruns)
+    slots, ids, prev = {}, {}, None
+    for nm in names:
+        cnt = seq.count(nm)
+        sl = list(range(cnt))
+        if rng.random() < 0.5:
+            rng.shuffle(sl)              # a later run may lie in front of an earlier one
+        slots[nm] = sl
+        ids[nm] = _ids(rng, 3 * cnt, reuse=prev)
+        prev = ids[nm]
+    seen = {nm: 0 for nm in names}
+    chroms = []
+    for nm in seq:
+        t = seen[nm]
+        seen[nm] += 1
+        my = ids[nm][3 * t:3 * t + 3]
+        if ploidy == 2 and rng.random() < 0.6:
+            c = chrom_from_pattern(rng, nm, rng.choice(pats), my)
+        else:
+            c = random_chrom(rng, nm, ploidy, rng.randint(0, 3), rng.randint(1, 9), my)
+        for s in c["sites"]:
+            s["pos"] += slots[nm][t] * RUN_SLOT
+        chroms.append(c)
+    return chroms
+
+
 def _add_decoy(rng, chroms, ploidy):
     """second sample: the calls of the chromosome rotated by one site (same encoding and ploidy)"""
     for c in chroms:
@@ -312,6 +369,22 @@ def scenarios(ctx):
         scs.append(sc)
         nselfiles += 1
     ctx.notes["selection_files_all_subsets"] = nselfiles
+    # ---- un-indexed files in which the records of a chromosome are NOT one contiguous run (chrA.., chrB.., chrA..): every
+    #      record of the file has to be counted, however the tool spreads a chromosome over rows.  Run plain and with
+    #      --only-snvs only (such a file cannot be tabix-indexed; --chromosome on it: see ASSUMPTIONS) ----
+    nonempty = [p for p in pats if 1 <= len(p) <= 7]
+    nrunfiles = 0
+    for j in range(60 if q else 600):
+        k += 1
+        ploidy = rng.choice([2, 2, 2, 3, 4])
+        nn = rng.choice([2, 2, 3, 3, 4])
+        names = rng.sample([1, 2, 3, 4, 5], nn)
+        chroms = noncontiguous_chroms(rng, names, nn + rng.randint(1, 3), ploidy, nonempty)
+        sc = make_file(rng, k, "runs", chroms, "PS" if j % 2 else "HP", ploidy, decoy=(j % 4 == 0))
+        sc["runs"] = [r for r in sc["runs"] if not r["sel"] and not r["gz"]]
+        scs.append(sc)
+        nrunfiles += 1
+    ctx.notes["noncontiguous_files"] = nrunfiles
     # ---- seeded random files beyond the enumeration bound ----
     for j in range(300 if q else 4000):
         k += 1
@@ -644,15 +717,17 @@ def signature(sc, events, clause):
         excs = sorted({e.get("exc", "") or e.get("where", "") for e in events if e.get("exc") or e["ev"] == "Crashed"})
         return f"src={sc['src']} enc={sc['enc']} ploidy={sc['ploidy']} exception/crash: " + ",".join(excs)
     # hypothesis: every reported number equals the count in which a call with a missing allele is heterozygous
-    sites = {c["name"]: c["sites"] for c in sc["chroms"]}
+    sites = {}
+    for c in sc["chroms"]:                 # a chromosome = all runs of records with its name
+        sites.setdefault(c["name"], []).extend(c["sites"])
     explained, differs = True, False
     for e in stats:
-        for r in e["rows"]:
-            ss = sites.get(r["c"], [])
+        for name in sorted({r["c"] for r in e["rows"]}):
+            ss = sites.get(name, [])
             good, glines = expected(ss, e["only"], False)
             bug, blines = expected(ss, e["only"], True)
-            got = {k: r[k] for k in good}
-            lines = sorted(b[1:] for b in e["blist"] if b[0] == r["c"])
+            got = {k: sum(r[k] for r in e["rows"] if r["c"] == name) for k in good}
+            lines = sorted(b[1:] for b in e["blist"] if b[0] == name)
             if got != good or lines != glines:
                 differs = True
                 if got != bug or lines != blines:
@@ -661,7 +736,9 @@ def signature(sc, events, clause):
         return ("calls with a missing allele (./., 0/., .|1) are counted as heterozygous (as unphased, or as member of the "
                 "phase set whose PS/HP they carry)")
     opts = sorted({("only-snvs" if e["only"] else "") + ("+sel" if e["sel"] else "") + ("+gz" if e["gz"] else "") for e in stats})
-    return f"src={sc['src']} enc={sc['enc']} ploidy={sc['ploidy']} decoy={int(sc['decoy'])} opts={'/'.join(o or 'plain' for o in opts)}"
+    names = [c["name"] for c in sc["chroms"]]
+    runs = " chromosomes-not-contiguous" if len(set(names)) < len(names) else ""
+    return f"src={sc['src']} enc={sc['enc']} ploidy={sc['ploidy']} decoy={int(sc['decoy'])} opts={'/'.join(o or 'plain' for o in opts)}{runs}"
 
 
 def selftest_corrupt(events):
@@ -686,7 +763,8 @@ MANIFEST = {
             "that the pieces are pairwise disjoint intervals inside their blocks (so the sum of block lengths is bounded by the covered "
             "span) and that the loop terminates. TLC enumerates all call patterns per chromosome within the bounds (Gen_C12) and all "
             "block families; the driver writes each VCF (PS or HP encoding, arbitrary ids/positions, optional decoy sample), runs "
-            "run_stats in-process with --tsv/--block-list/--gtf, with and without --only-snvs and --chromosome (plain and tabix-indexed), "
+            "run_stats in-process with --tsv/--block-list/--gtf, with and without --only-snvs and --chromosome (plain and tabix-indexed; "
+            "also un-indexed files whose chromosomes are not contiguous runs of records, where every record must be counted), "
             "parses TSV, text report, block list and GTF, and TLC judges every run against the definitions (counts, the two identities, "
             "block list = one line per phase set with true extent and size, length-sum bound, ALL row = sum of rows, text = TSV, GTF "
             "features describe the sets); every enumerated family is also put into a real PhasingStats and its split_blocks are judged.",
